@@ -86,25 +86,32 @@ func ruleNibbles(c *Ctx, r *Report, rule string) {
 	}
 	got := map[string]int64{}
 	var byteObj types.Object
+	armNodes := vm.armNodes(c, arm)
 	vm.inspectArm(c, arm, func(n ast.Node) bool {
-		as, ok := n.(*ast.AssignStmt)
-		if !ok || len(as.Lhs) != 1 || len(as.Rhs) != 1 {
+		call, ok := n.(*ast.CallExpr)
+		if !ok || len(call.Args) != 1 {
 			return true
 		}
-		if call, ok := as.Rhs[0].(*ast.CallExpr); ok {
-			if vm.callRole(c, call) == "readByte" {
-				byteObj = c.objOf(as.Lhs[0])
-			}
-			if tv, ok := c.infoFor(call).Types[call.Fun]; ok && tv.IsType() && len(call.Args) == 1 {
-				if be, ok := stripParens(call.Args[0]).(*ast.BinaryExpr); ok && be.Op == token.AND && c.isObj(be.X, byteObj) {
-					if k, isC := c.intConst(be.Y); isC {
-						got[typeShort(tv.Type)] = k
-					}
-				}
-			}
+		tv, ok := c.infoFor(call).Types[call.Fun]
+		if !ok || !tv.IsType() {
+			return true
+		}
+		be, ok := stripParens(call.Args[0]).(*ast.BinaryExpr)
+		if !ok || be.Op != token.AND {
+			return true
+		}
+		// the masked value is the operand byte: the result of the byte reader, directly, through a local, or
+		// handed on as a parameter of a method the arm is split into
+		rc, isCall := stripParens(vm.argExpr(c, armNodes, be.X)).(*ast.CallExpr)
+		if !isCall || vm.callRole(c, rc) != "readByte" {
+			return true
+		}
+		if k, isC := c.intConst(be.Y); isC {
+			got[typeShort(tv.Type)] = k
 		}
 		return true
 	})
+	_ = byteObj
 	r.check(got["bindSelector"] == 0x0F && got["bindTarget"] == 0xF0, rule, "unpack", "selector = byte&0x0F, target = byte&0xF0", fmt.Sprintf("the VM must unpack the BIND operand byte with masks 0x0F (selector) and 0xF0 (target); found %v", got), c.pos(arm.Clause.Pos()))
 }
 
@@ -124,6 +131,7 @@ type bindParts struct {
 	helper      *ast.FuncDecl // the candidate filter lives in this function
 	helperParts *bindParts
 	clauseRoot  ast.Node
+	roots       []ast.Node // the clause and the bodies of the machine's methods the arm is split into
 }
 
 func (c *Ctx) bindParts(vm *vmModel) (*bindParts, string) {
@@ -132,7 +140,64 @@ func (c *Ctx) bindParts(vm *vmModel) (*bindParts, string) {
 		return nil, "no BIND arm"
 	}
 	bp := &bindParts{clause: arm.Clause, stmtsPos: map[ast.Stmt]int{}}
-	for i, s := range arm.Clause.Body {
+	bp.roots = vm.armNodes(c, arm)
+	// the arm as one statement list: a call of one of the machine's methods (the arm split into steps) is
+	// followed by that method's statements; `var ( x = e … )` counts as the assignments it is
+	var stmts []ast.Stmt
+	var flatten func(list []ast.Stmt, depth int)
+	flatten = func(list []ast.Stmt, depth int) {
+		for _, st := range list {
+			if ds, ok := st.(*ast.DeclStmt); ok {
+				if gd, ok := ds.Decl.(*ast.GenDecl); ok && gd.Tok == token.VAR {
+					split := false
+					for _, sp := range gd.Specs {
+						if vs, ok := sp.(*ast.ValueSpec); ok && len(vs.Values) == len(vs.Names) && len(vs.Values) > 0 {
+							split = true
+							for k := range vs.Names {
+								stmts = append(stmts, &ast.AssignStmt{Lhs: []ast.Expr{vs.Names[k]}, Tok: token.DEFINE, TokPos: vs.Pos(), Rhs: []ast.Expr{vs.Values[k]}})
+							}
+						}
+					}
+					if split {
+						continue
+					}
+				}
+			}
+			stmts = append(stmts, st)
+			if depth > 3 {
+				continue
+			}
+			var call *ast.CallExpr
+			switch x := st.(type) {
+			case *ast.ExprStmt:
+				call, _ = x.X.(*ast.CallExpr)
+			case *ast.ReturnStmt:
+				if len(x.Results) == 1 {
+					call, _ = x.Results[0].(*ast.CallExpr)
+				}
+			case *ast.IfStmt:
+				if as, ok := x.Init.(*ast.AssignStmt); ok && len(as.Rhs) == 1 {
+					call, _ = as.Rhs[0].(*ast.CallExpr)
+				}
+			case *ast.AssignStmt:
+				if len(x.Rhs) == 1 {
+					call, _ = x.Rhs[0].(*ast.CallExpr)
+				}
+			}
+			if call == nil {
+				continue
+			}
+			fn := c.callee(call)
+			if _, isRole := vm.MethodRoles[fn]; isRole {
+				continue
+			}
+			if fd := vm.InlineMethods[fn]; fd != nil {
+				flatten(fd.Body.List, depth+1)
+			}
+		}
+	}
+	flatten(arm.Clause.Body, 0)
+	for i, s := range stmts {
 		bp.stmtsPos[s] = i
 		switch s := s.(type) {
 		case *ast.AssignStmt:
@@ -190,7 +255,14 @@ func (c *Ctx) bindParts(vm *vmModel) (*bindParts, string) {
 				bp.filter = fl
 			}
 		case *ast.SwitchStmt:
-			if s.Tag == nil {
+			storesBinding := false
+			ast.Inspect(s, func(n ast.Node) bool {
+				if as, ok := n.(*ast.AssignStmt); ok && len(as.Lhs) == 1 && c.fieldPath(as.Lhs[0]) == "<vm>.binding" {
+					storesBinding = true
+				}
+				return true
+			})
+			if storesBinding && bp.table == nil {
 				bp.table = s
 			}
 		case *ast.IfStmt:
@@ -363,19 +435,28 @@ func ruleBindFilter(c *Ctx, r *Report, rule string, bp *bindParts) {
 	if outer != bp {
 		// in the arm itself the returned slice is assigned once and never modified
 		am := 0
-		ast.Inspect(outer.clause, func(n ast.Node) bool {
-			if as, ok := n.(*ast.AssignStmt); ok {
-				for _, l := range as.Lhs {
-					if c.isObj(l, outer.blocks) {
-						am++
+		for _, root := range outer.roots {
+			ast.Inspect(root, func(n ast.Node) bool {
+				switch n := n.(type) {
+				case *ast.AssignStmt:
+					for _, l := range n.Lhs {
+						if c.isObj(l, outer.blocks) {
+							am++
+						}
+						if ix, ok := l.(*ast.IndexExpr); ok && c.isObj(ix.X, outer.blocks) {
+							am += 10
+						}
 					}
-					if ix, ok := l.(*ast.IndexExpr); ok && c.isObj(ix.X, outer.blocks) {
-						am += 10
+				case *ast.ValueSpec:
+					for _, nm := range n.Names {
+						if c.infoFor(nm).Defs[nm] == outer.blocks && len(n.Values) > 0 {
+							am++
+						}
 					}
 				}
-			}
-			return true
-		})
+				return true
+			})
+		}
 		if am != 1 {
 			mods += 100
 		}
@@ -407,7 +488,15 @@ func ruleCountGuards(c *Ctx, r *Report, rule string, bp *bindParts) {
 		}
 	}
 	lenOf := func(e ast.Expr) bool {
-		call, ok := stripParens(e).(*ast.CallExpr)
+		e = stripParens(e)
+		if id, isID := e.(*ast.Ident); isID {
+			for _, root := range bp.roots {
+				if def, n := c.singleDef(root, c.objOf(id)); n == 1 && def != nil {
+					e = stripParens(def)
+				}
+			}
+		}
+		call, ok := e.(*ast.CallExpr)
 		return ok && c.calleeName(call) == "len" && c.isObj(call.Args[0], bp.blocks)
 	}
 	returnsErr := func(ifs *ast.IfStmt) bool {
@@ -477,7 +566,15 @@ func ruleSelectionTable(c *Ctx, r *Report, rule string, bp *bindParts) {
 		if !ok || be.Op != token.SUB {
 			return false
 		}
-		call, ok := stripParens(be.X).(*ast.CallExpr)
+		x := stripParens(be.X)
+		if id, isID := x.(*ast.Ident); isID {
+			for _, root := range bp.roots {
+				if def, n := c.singleDef(root, c.objOf(id)); n == 1 && def != nil {
+					x = stripParens(def)
+				}
+			}
+		}
+		call, ok := x.(*ast.CallExpr)
 		k, isC := c.intConst(be.Y)
 		return ok && isC && k == 1 && c.calleeName(call) == "len" && c.isObj(call.Args[0], bp.blocks)
 	}
@@ -524,76 +621,164 @@ func ruleSelectionTable(c *Ctx, r *Report, rule string, bp *bindParts) {
 		}
 		return typeShort(c.typeOf(cl)) + "{" + inner + "}"
 	}
-	clauses := bp.table.Body.List
+	// every store to vm.binding in the arm (and in the methods it is split into), with the conditions under
+	// which control reaches it: enclosing if/switch conditions, tagged or tagless, fallthrough chains included.
+	// The operands are recognised by their types (bindTarget, bindSelector), whatever the variables are called.
 	got := map[string]string{}
+	nStores := 0
+	isTyped := func(e ast.Expr, name string) bool { return isNamed(c.typeOf(e), bclPath, name) }
+	for _, root := range bp.roots {
+		pm := parentMap(root)
+		ast.Inspect(root, func(n ast.Node) bool {
+			as, ok := n.(*ast.AssignStmt)
+			if !ok || len(as.Lhs) != 1 || len(as.Rhs) != 1 || c.fieldPath(as.Lhs[0]) != "<vm>.binding" {
+				return true
+			}
+			nStores++
+			res := classify(as.Rhs[0])
+			// alternatives: a disjunction of conjunctions of (operand kind, constant)
+			alts := []map[string]string{{}}
+			for cur := ast.Node(as); cur != nil && cur != root; cur = pm[cur] {
+				cc, isCC := pm[cur].(*ast.CaseClause)
+				if !isCC {
+					continue
+				}
+				blk, _ := pm[cc].(*ast.BlockStmt)
+				sw, _ := pm[blk].(*ast.SwitchStmt)
+				if sw == nil {
+					continue
+				}
+				// the clauses that lead here: this one and the ones falling through to it
+				idx := -1
+				for k, cl := range blk.List {
+					if cl == ast.Stmt(cc) {
+						idx = k
+					}
+				}
+				var level []map[string]string
+				for k := idx; k >= 0; k-- {
+					cl := blk.List[k].(*ast.CaseClause)
+					if k < idx {
+						falls := false
+						if nb := len(cl.Body); nb > 0 {
+							if bs, ok := cl.Body[nb-1].(*ast.BranchStmt); ok && bs.Tok == token.FALLTHROUGH {
+								falls = true
+							}
+						}
+						if !falls {
+							break
+						}
+					}
+					for _, e := range cl.List {
+						var conjs [][]condAtom
+						if sw.Tag != nil {
+							conjs = [][]condAtom{{{E: &ast.BinaryExpr{X: sw.Tag, Op: token.EQL, Y: e}, Pos: true}}}
+						} else {
+							conjs = c.nnf(e, true, nil).dnf()
+						}
+						for _, conj := range conjs {
+							m := map[string]string{}
+							okc := true
+							for _, a := range conj {
+								be, isB := a.E.(*ast.BinaryExpr)
+								if !isB || be.Op != token.EQL || !a.Pos {
+									okc = false
+									continue
+								}
+								x, y := be.X, be.Y
+								if _, isC := c.intConst(x); isC {
+									x, y = y, x
+								}
+								k, isC := c.intConst(y)
+								switch {
+								case isC && isTyped(x, "bindTarget"):
+									m["t"] = constNameOf(tgts, k)
+								case isC && isTyped(x, "bindSelector"):
+									m["s"] = constNameOf(sels, k)
+								default:
+									okc = false
+								}
+							}
+							if !okc {
+								m["?"] = types.ExprString(e)
+							}
+							level = append(level, m)
+						}
+					}
+				}
+				// combine with the inner levels
+				var next []map[string]string
+				for _, a := range alts {
+					for _, b := range level {
+						m := map[string]string{}
+						for k, v := range a {
+							m[k] = v
+						}
+						for k, v := range b {
+							m[k] = v
+						}
+						next = append(next, m)
+					}
+				}
+				alts = next
+			}
+			for _, m := range alts {
+				key := m["t"] + "/" + m["s"]
+				if m["?"] != "" || m["t"] == "" || m["s"] == "" {
+					key = fmt.Sprintf("?/%d", nStores)
+					res = "unrecognised case condition " + m["?"]
+				}
+				if prev, dup := got[key]; dup && prev != res {
+					res = prev + " | " + res
+				}
+				got[key] = res
+			}
+			return true
+		})
+	}
+	tpos := c.pos(bp.clause.Pos())
+	for _, k := range sortedKeys(want) {
+		r.check(got[k] == want[k], rule, k, want[k], fmt.Sprintf("(%s) selects %s; documented: %s", k, got[k], want[k]), tpos)
+	}
+	for _, k := range sortedKeys(got) {
+		if _, ok := want[k]; !ok {
+			r.bad(rule, k, fmt.Sprintf("undocumented selection case (%s) -> %s", k, got[k]), tpos)
+		}
+	}
+	// any other combination is a runtime error: a default clause returning one, or — when every selecting
+	// case returns — the statement after the selection
 	defaultErr := false
-	for i, cl := range clauses {
-		cc := cl.(*ast.CaseClause)
-		if cc.List == nil {
-			for _, s := range cc.Body {
-				if rs, ok := s.(*ast.ReturnStmt); ok && len(rs.Results) == 1 {
-					if call, ok := rs.Results[0].(*ast.CallExpr); ok && c.calleeName(call) == "vm.runtimeError" {
+	isErrReturn := func(s ast.Stmt) bool {
+		rs, ok := s.(*ast.ReturnStmt)
+		if !ok || len(rs.Results) != 1 {
+			return false
+		}
+		call, ok := rs.Results[0].(*ast.CallExpr)
+		return ok && c.calleeName(call) == "vm.runtimeError"
+	}
+	for _, root := range bp.roots {
+		ast.Inspect(root, func(n ast.Node) bool {
+			switch n := n.(type) {
+			case *ast.CaseClause:
+				if n.List == nil {
+					for _, st := range n.Body {
+						if isErrReturn(st) {
+							defaultErr = true
+						}
+					}
+				}
+			case *ast.BlockStmt:
+				// switch …; return vm.runtimeError(...) as the last two statements of a method body
+				if k := len(n.List); k >= 2 {
+					if _, isSw := n.List[k-2].(*ast.SwitchStmt); isSw && isErrReturn(n.List[k-1]) {
 						defaultErr = true
 					}
 				}
 			}
-			continue
-		}
-		// follow fallthrough to the clause that assigns
-		j := i
-		for {
-			body := clauses[j].(*ast.CaseClause).Body
-			if len(body) == 1 {
-				if bs, ok := body[0].(*ast.BranchStmt); ok && bs.Tok == token.FALLTHROUGH && j+1 < len(clauses) {
-					j++
-					continue
-				}
-			}
-			break
-		}
-		body := clauses[j].(*ast.CaseClause).Body
-		res := "?"
-		if len(body) == 1 {
-			if as, ok := body[0].(*ast.AssignStmt); ok && len(as.Lhs) == 1 && c.fieldPath(as.Lhs[0]) == "<vm>.binding" {
-				res = classify(as.Rhs[0])
-			}
-		}
-		for _, cond := range cc.List {
-			for _, conj := range c.nnf(cond, true, nil).dnf() {
-				var t, s string
-				okConj := len(conj) == 2
-				for _, a := range conj {
-					b, isB := c.boundOf(a)
-					if !isB || b.Lo == nil || b.Hi == nil || *b.Lo != *b.Hi {
-						okConj = false
-						continue
-					}
-					switch {
-					case c.isObj(b.X, bp.tgtVar):
-						t = constNameOf(tgts, *b.Lo)
-					case c.isObj(b.X, bp.selVar):
-						s = constNameOf(sels, *b.Lo)
-					default:
-						okConj = false
-					}
-				}
-				if !okConj || t == "" || s == "" {
-					got["?/"+fmt.Sprint(i)] = "unrecognised case condition"
-					continue
-				}
-				got[t+"/"+s] = res
-			}
-		}
+			return true
+		})
 	}
-	for _, k := range sortedKeys(want) {
-		r.check(got[k] == want[k], rule, k, want[k], fmt.Sprintf("(%s) selects %s; documented: %s", k, got[k], want[k]), c.pos(bp.table.Pos()))
-	}
-	for _, k := range sortedKeys(got) {
-		if _, ok := want[k]; !ok {
-			r.bad(rule, k, fmt.Sprintf("undocumented selection case (%s) -> %s", k, got[k]), c.pos(bp.table.Pos()))
-		}
-	}
-	r.check(defaultErr, rule, "default", "any other combination is a runtime error", "the selection switch must end in a default clause that returns a runtime error", c.pos(bp.table.Pos()))
+	r.check(defaultErr, rule, "default", "any other combination is a runtime error", "the selection must end in a runtime error for every combination it does not list", tpos)
 }
 
 func ruleBindParse(c *Ctx, r *Report, rule string, spec *langSpec) {
